@@ -28,6 +28,9 @@ def model_by_id(mid, kind="dense"):
         return nets.make_stack(rng, dims=3, param="raw", max_in=12, n_conv=1, n_dense=1)
     if kind == "dense-nogs":
         return nets.make_dense(rng, 5, [7, 6], k=None)
+    if kind == "dense-big":
+        # long enough in logic_net for concurrent calls to overlap
+        return nets.make_dense(rng, 32, [6000, 6000, 64], k=2, self_pairs=0.0)
     if kind == "dense-wide":
         # more inputs than a 16-bit index can address
         return nets.make_dense(rng, 40000, [64, 6], k=2, self_pairs=0.0)
@@ -82,8 +85,10 @@ def job_history(job):
 
 def job_threads(job):
     nets_ = []
+    kind = job.get("kind", "dense")
+    n_in = 32 if kind == "dense-big" else 5
     for mid in job["models"]:
-        m = model_by_id(mid)
+        m = model_by_id(mid, kind)
         net = compiled.build(m, job["W"])
         compiled.compile_net(net)
         nets_.append(net)
@@ -91,11 +96,11 @@ def job_threads(job):
         direct = compiled.build(torch.nn.Sequential(*list(m)[:-1]), job["W"])
         compiled.compile_net(direct)
         nets_.append(direct)
-    batches = [np.array(probe(5, 64 + 7 * i), dtype=bool) for i in range(4)]
+    batches = [np.array(probe(n_in, 64 + 7 * i), dtype=bool) for i in range(4)]
     # batches of EQUAL size and different contents (anything keyed by the batch shape and shared between calls shows here)
     for i in range(4):
         r = random.Random(900 + i)
-        batches.append(np.array([[r.randrange(2) for _ in range(5)] for _ in range(64)], dtype=bool))
+        batches.append(np.array([[r.randrange(2) for _ in range(n_in)] for _ in range(64)], dtype=bool))
     # no stdout redirection here: contextlib.redirect_stdout is not thread-safe
     seq = [[n.forward(b).tolist() for b in batches] for n in nets_]
     bad = []
